@@ -28,6 +28,13 @@ def run(rep, tier, seed):
             dict(name="hist_P2", P=2, maxinstr=2, maxhist=3, ops="OpsCore", points="PtsP2", seeds="SeedsA", max_replay=30000),
         ]
     T.tracer_check(rep, configs, "C06", nontrivial=lambda h: sum(1 for e in h if e["c"] in ("fwd", "pb", "drv", "other")) >= 2)
+    # the design property ResultsStable is not vacuous: with the deviation switch FreshBars = FALSE (adjoint buffers cleared and
+    # reused by the next sweep) TLC must exhibit the counterexample Pb;Pb
+    dev = run_tlc("MC_Tracer", T.cfg(maxinstr=1, maxhist=2, ops="OpsCore", points="PtsP1small", seeds="SeedsA", freshbars=False, emit=False),
+                  workers=8, timeout=600, parse_json=False)
+    if dev.violated != "ResultsStable":
+        raise Machinery("deviation FreshBars=FALSE: expected a counterexample to ResultsStable, TLC says %r %s" % (dev.violated, (dev.error or "")[:200]))
+    rep.add_tlc(dev, "deviation_FreshBars_FALSE (counterexample expected and found)")
     T.full_api_histories(rep, seed, n=60 if q else 400)
     T.validate_recorded(rep, "C06", repo_tests=False)
     T.self_test(rep)
